@@ -253,6 +253,7 @@ struct HashMgrSim : Sim {
                 int size_regime;
                 int len_mode = 0;
                 int64_t len_fixed = 0;
+                bool jump_run = false;    // C15 counter-jump workload
                 int64_t giant = 0;        // != 0: client 0 is the giant client
                 bool giant_inflight = false;
                 bool poisoned_api = false; // an earlier rejection happened (C11 "later valid call" clause is live)
@@ -369,6 +370,13 @@ struct HashMgrSim : Sim {
                 // running total (C15 clause, also C01)
                 uint64_t tl = u64(c.ctx, d.off_total);
                 e.obs(0x200 + ci, tl);
+                if (tl != c.total && s.jump_run) {
+                        // the library did not take ctx->total_length as its only record of the running total: the counter jump is not a
+                        // faithful model of this implementation, the run says nothing
+                        s.r->cov.hit("counter_jump_not_honoured_run_not_judged");
+                        e.tainted = true;
+                        throw RunAbort();
+                }
                 if (tl != c.total)
                         e.violation("C15", "total-length", "C15/total-length/" + s.tag,
                                     strfmt("%s: client %d reports total_length %llu, sum of accepted segments is %llu", s.tag.c_str(), ci,
@@ -822,6 +830,10 @@ struct HashMgrSim : Sim {
                         execute_endure(p, e, r);
                         return;
                 }
+                if (p.get("mode") == 4) {
+                        execute_jump(p, e, r);
+                        return;
+                }
                 St s;
                 s.d = &g_algos[p.get("algo") % A_N];
                 s.f = &s.d->fams[p.get("family") % s.d->fams.size()];
@@ -913,6 +925,8 @@ struct HashMgrSim : Sim {
         void execute_long(const Plan &p, Env &e, RunResult &r);
         void execute_endure(const Plan &p, Env &e, RunResult &r);
         Plan generate_endure(uint64_t seed, uint64_t run_index);
+        void execute_jump(const Plan &p, Env &e, RunResult &r);
+        Plan generate_jump(uint64_t seed, uint64_t run_index);
 };
 
 // ====================================================================== C15 long-stream workload
@@ -1019,7 +1033,7 @@ Plan HashMgrSim::generate_long(uint64_t seed, bool thorough, uint64_t run_index,
         // which thresholds to cross: 1 = 2^29, 2 = 2^32, 3 = 2^32 + 2^29
         int target;
         if (thorough)
-                target = run_index < pairs.size() ? 3 : 2;
+                target = (run_index / pairs.size()) % 2 == 0 ? 3 : 2; // (this sim owns run indices 0..9 and 570..615 of the thorough tier)
         else
                 target = 2; // every pair crosses 2^29 and 2^32 in one stream
         p.cfg["algo"] = pr.first;
@@ -1262,6 +1276,173 @@ void HashMgrSim::execute_long(const Plan &p, Env &e, RunResult &r)
         e.check_mem_all("end of run");
 }
 
+// ---------------------------------------------------------------------- counter jump (C15 far beyond 2^32)
+// Streaming 2^38 or 2^56 bytes is not possible, but the only place where a context remembers how much it has hashed is
+// ctx->total_length (the digest words do not depend on it; only the padding does). While the context is idle between two UPDATE
+// segments the harness adds a whole number of blocks J to that counter - a "clock jump" - and adds the same J to the reference
+// model's length. From then on library and model must agree on the padding of a message whose length is near 2^k, k up to 60,
+// at a cost of a few MiB. Assumption (checked: a run in which the library's reported total does not follow the jump is discarded,
+// not judged): total_length is the library's only record of the running total.
+Plan HashMgrSim::generate_jump(uint64_t seed, uint64_t run_index)
+{
+        Rng g(seed, "plan-jump");
+        Plan p;
+        p.cfg["mode"] = 4;
+        std::vector<std::pair<int, int>> pairs;
+        for (int a = 0; a < A_N; a++)
+                for (size_t f = 0; f < g_algos[a].fams.size(); f++)
+                        pairs.emplace_back(a, (int) f);
+        auto pr = pairs[run_index % pairs.size()];
+        p.cfg["algo"] = pr.first;
+        p.cfg["family"] = pr.second;
+        p.cfg["api"] = g.chance(1, 3) ? API_ISAL : API_FAMILY;
+        static const int ks[12] = { 33, 34, 35, 36, 37, 38, 40, 44, 48, 52, 56, 60 };
+        // the visits of one pair take strides of 5 through the 12 exponents, so that any five consecutive visits include large ones
+        p.cfg["jump_k"] = ks[((run_index / pairs.size()) * 5 + (run_index % pairs.size()) * 7) % 12];
+        int nops = 60;
+        for (int i = 0; i < nops; i++) {
+                Op o;
+                o.kind = OP_LONG;
+                o.a = (int64_t) g.below(1 << 16);
+                o.b = (int64_t) g.below(1 << 16);
+                o.c = (int64_t) g.next() & 0x7fffffffffffLL;
+                o.d = (int64_t) g.below(1 << 16);
+                p.ops.push_back(o);
+        }
+        return p;
+}
+
+void HashMgrSim::execute_jump(const Plan &p, Env &e, RunResult &r)
+{
+        build_window();
+        St s;
+        s.d = &g_algos[p.get("algo") % A_N];
+        s.f = &s.d->fams[p.get("family") % s.d->fams.size()];
+        s.api = (int) p.get("api");
+        s.env = &e;
+        s.r = &r;
+        s.plan_seed = p.seed;
+        s.size_regime = 0;
+        s.jump_run = true;
+        const int k = (int) std::max<int64_t>(33, std::min<int64_t>(60, p.get("jump_k", 38)));
+        s.tag = std::string(s.d->name) + "/" + s.f->name + "/" + (s.api == API_FAMILY ? "family" : "isal") + strfmt("/jump2^%d", k);
+        const AlgoDesc &d = *s.d;
+        e.poison_regs = true;
+        s.mgr = e.mem.alloc(d.mgr_size, 64, START_FLUSH, &e.hidden, "manager", R_OBJECT);
+        s.ctx_out = (uint64_t *) e.mem.alloc(8, 8, END_FLUSH, &e.hidden, "ctx_out slot", R_OUTPUT);
+        s.cl.resize(1);
+        Client &c = s.cl[0];
+        c.ref = RefHash(d.a);
+        c.ctx = e.mem.alloc(d.ctx_size, 64, MID, &e.hidden, "context", R_OBJECT, 64);
+        u32(c.ctx, d.off_error) = ISAL_HASH_CTX_ERROR_NONE;
+        u32(c.ctx, d.off_status) = ISAL_HASH_CTX_STS_COMPLETE;
+        c.user_tag = mix64(p.seed, 0x75e7);
+        u64(c.ctx, d.off_user) = c.user_tag;
+        void *sv[3] = { *d.disp_init, *d.disp_submit, *d.disp_flush };
+        if (s.api != API_FAMILY) {
+                *d.disp_init = s.f->init;
+                *d.disp_submit = s.f->submit;
+                *d.disp_flush = s.f->flush;
+        }
+        struct Restore {
+                const AlgoDesc &d;
+                void **sv;
+                ~Restore()
+                {
+                        *d.disp_init = sv[0];
+                        *d.disp_submit = sv[1];
+                        *d.disp_flush = sv[2];
+                }
+        } restore{ d, sv };
+        if (s.api == API_FAMILY)
+                e.call((std::string("_") + d.name + "_ctx_mgr_init_" + s.f->name).c_str(), s.f->init, { U(s.mgr) });
+        else
+                e.call((std::string("isal_") + d.name + "_ctx_mgr_init").c_str(), d.isal_init, { U(s.mgr) });
+        const uint64_t thr = 1ull << k;
+        const uint64_t goal = thr + (uint64_t) (p.ops[0].c % (3 * d.block)) + 1;
+        uint64_t pos = 0; // logical stream position = running total
+        size_t opi = 0;
+        auto segment = [&](uint64_t len, bool first, bool last) {
+                const uint8_t *buf = g_window + (pos % WIN_PERIOD);
+                c.ref.update(buf, (size_t) len);
+                c.total += len;
+                c.nseg++;
+                c.last_sent = last;
+                if (first) {
+                        c.started = true;
+                        c.complete = false;
+                }
+                e.ev(mix64(OP_LONG, len ^ (pos << 20)));
+                int rc;
+                uint64_t ret = do_submit(s, c.ctx, buf, (uint32_t) len, (first ? ISAL_HASH_FIRST : 0) | (last ? ISAL_HASH_LAST : 0), &rc);
+                e.obs(0x11, (uint64_t) rc);
+                if (s.api == API_ISAL && rc != 0)
+                        e.violation("C15", "valid-call-failed", "C15/valid-call-failed/" + s.tag, strfmt("%s: valid submit returned %d", s.tag.c_str(), rc));
+                if (ret == (uint64_t) (uintptr_t) c.ctx)
+                        handed_back(s, 0, "its own submit", false);
+                else {
+                        c.in_flight = true;
+                        s.inflight++;
+                        process_return(s, ret, 0, "submit");
+                }
+                post_call_invariants(s, "submit");
+                for (int guard = 0; c.in_flight && guard < 8; guard++)
+                        op_flush(s, false);
+                pos += len;
+        };
+        // phase A: a few real segments with unaligned lengths
+        int nA = 1 + (int) (p.ops[0].a % 3);
+        for (int i = 0; i < nA; i++) {
+                const Op &o = p.ops[opi++ % p.ops.size()];
+                segment(1 + (uint64_t) (o.c % (1u << 20)), i == 0, false);
+        }
+        // the jump: a whole number of blocks, landing a seeded distance (< 3 MiB) before 2^k
+        {
+                const Op &o = p.ops[opi++ % p.ops.size()];
+                uint64_t D = 1 + (uint64_t) (o.c % (3u << 20));
+                uint64_t J = ((thr - D - pos) / d.block) * d.block;
+                u64(c.ctx, d.off_total) += J;
+                c.total += J;
+                c.ref.total += J;
+                pos += J;
+                r.cov.hit(strfmt("fault_counter_jump_to_2^%d", k));
+                e.ev(mix64(0x10ab, J));
+        }
+        // phase B: approach and cross 2^k as the long streams do, then LAST exactly at goal
+        int guard = 0;
+        while (pos < goal && guard++ < 200) {
+                const Op &o = p.ops[opi++ % p.ops.size()];
+                uint64_t dist = pos < thr ? thr - pos : goal - pos;
+                uint64_t len;
+                if (pos < thr && dist > (48u << 10)) {
+                        uint64_t stop = 1 + (uint64_t) (o.c % (40u << 10));
+                        len = (o.b & 1) ? dist - stop : std::max<uint64_t>(1, (dist - stop) / 2 + (o.c % 63));
+                } else if (pos < thr) {
+                        switch (o.b % 6) {
+                        case 0: len = 1 + (o.c % (2 * d.block)); break;
+                        case 1: len = (o.c % 8192) + 1; break;
+                        case 2: len = d.block * (1 + o.c % 16) + (o.c >> 8) % d.block; break;
+                        case 3: len = dist; break;
+                        case 4: len = dist + 1 + (o.c % (3 * d.block)); break;
+                        default: len = (o.c % 2) ? std::max<uint64_t>(1, dist - 1) : dist + d.block; break;
+                        }
+                } else
+                        len = dist;
+                if (len > goal - pos)
+                        len = goal - pos;
+                if (len == 0)
+                        len = 1;
+                bool last = pos + len == goal;
+                if (pos < thr && pos + len >= thr)
+                        r.cov.hit(strfmt("probe_crossed_2^%d_after_counter_jump", k));
+                segment(len, false, last);
+        }
+        if (!c.complete)
+                r.cov.hit("jump_run_did_not_complete_within_the_step_budget");
+        op_flush(s, true);
+        e.check_mem_all("end of run");
+}
+
 // ---------------------------------------------------------------------- endurance: one long-lived manager
 // One manager, never more than two jobs in flight (most lanes stay idle), tens of GiB hashed through the flush path as a sequence of
 // 2^28-byte ENTIRE jobs of the periodic stream, each compared with the cached reference. Whatever a manager accumulates over its
@@ -1408,3 +1589,10 @@ struct HashEndureSim : HashMgrSim {
 };
 } // namespace
 Sim *make_hashendure_sim() { return new HashEndureSim(); }
+namespace {
+struct HashJumpSim : HashMgrSim {
+        const char *name() const override { return "hashjump"; }
+        Plan generate(uint64_t seed, const std::string &, bool, uint64_t idx) override { return generate_jump(seed, idx); }
+};
+} // namespace
+Sim *make_hashjump_sim() { return new HashJumpSim(); }
